@@ -26,3 +26,8 @@ package utils
 //@   ensures len(symbol) > 0 ==> ok == (sindex(s, symbol) >= 0)
 //@   ensures len(symbol) > 0 && ok ==> s1 == s[0 : sindex(s, symbol)] && s2 == s[sindex(s, symbol) + len(symbol) : len(s)]
 //@   ensures len(symbol) > 0 && !ok ==> s1 == "" && s2 == ""
+
+// RemoveComment (C12): everything from the first occurrence of symbol on is dropped.
+//@ func RemoveComment [C12]
+//@   log RemoveComment
+//@   ensures result == ite(sindex(s, symbol) >= 0, s[0 : sindex(s, symbol)], s)
